@@ -9,6 +9,7 @@ the layout is carried along `SameContent` — the conclusion of property C01 (bi
 serialize → parse), which enters the file-level theorems as the named hypothesis `BinRoundTrip`.
 -/
 import MilaModel.Lemmas.AsetBuild
+import MilaModel.Lemmas.ComposeAset
 import MilaModel.Spec.Aset
 
 namespace Mila.Props.C17
@@ -253,5 +254,107 @@ example : Spec.Aset.dataSize sample.sets = 12 + 4 * 257 + 4 * 3 + 4 * 1 := by de
 
 /-- `SameContent` is satisfiable (reflexivity), so the layering hypothesis is not vacuous. -/
 example (a : BinArchive) : SameContent a a := SameContent.refl a
+
+/-! ### composition with C01: the hypothesis `hC01` discharged
+
+`BinRoundTrip c a` is now a *theorem* for every archive `serialize` builds: the built archive is in
+C01's quantifier (one string per 4-aligned cell inside the data, no pointers or pending c-strings,
+one non-empty label bucket per address `≤ size`: `Compose.tidy_aset_build` + `build_layout`), so
+`C01.parse_serialize` applies.  What remains are the property's own domain hypotheses: the codec is
+faithful on `D`, every string of the file (and the reserved table label) is in `D`
+(`Compose.AsetStrsIn`), the 257-entry shapes (`WF`), and the 32-bit format's size limit on the image
+(`Ser.imageSize`: header, data, tables and text section of the built archive). -/
+
+/-- **C01 instantiated**: the bin-archive round trip holds of every archive `serialize` builds. -/
+theorem aset_bin_roundtrip (c : Codec) (D : Str → Prop) (hf : c.Faithful D) (f : ASetFile) (h : WF f)
+    (hD : Compose.AsetStrsIn D f) :
+    ∀ a, build f = .ok a → Ser.imageSize c a < 2 ^ 32 → BinRoundTrip c a :=
+  fun _ ha small =>
+    Compose.aset_binRoundTrip c D hf f (wf_nonempty h) (by rw [h.1]; omega) hD ha small
+
+/-- `serialize` succeeds on the whole domain, with an image of the prescribed size. -/
+theorem aset_serialize_ok (c : Codec) (D : Str → Prop) (hf : c.Faithful D) (f : ASetFile) (h : WF f)
+    (hD : Compose.AsetStrsIn D f) (small : ∀ a, build f = .ok a → Ser.imageSize c a < 2 ^ 32) :
+    ∃ a bytes, build f = .ok a ∧ serialize c f = .ok bytes ∧ bytes.length = Ser.imageSize c a := by
+  obtain ⟨a, ha, _, hp⟩ := build_layout f (wf_nonempty h) (by rw [h.1]; omega)
+  obtain ⟨bytes, hs, hl⟩ := (Compose.tidy_aset_build f hD ha).serialize_ok hp c hf (small a ha)
+  refine ⟨a, bytes, ha, ?_, hl⟩
+  unfold Aset.serialize
+  rw [ha]; exact hs
+
+/-- **File-level round trip, unconditional**: `serialize` succeeds and
+`from_archive(from_bytes(serialize(f))) = f`. -/
+theorem aset_file_roundtrip_unconditional (c : Codec) (D : Str → Prop) (hf : c.Faithful D)
+    (f : ASetFile) (h : WF f) (hD : Compose.AsetStrsIn D f)
+    (small : ∀ a, build f = .ok a → Ser.imageSize c a < 2 ^ 32) :
+    ∃ bytes b, serialize c f = .ok bytes ∧ BinArchive.parse c .little bytes = .ok b ∧
+      fromArchive b = .ok f := by
+  obtain ⟨_, bytes, _, hs, _⟩ := aset_serialize_ok c D hf f h hD small
+  obtain ⟨b, hb, hfa⟩ := aset_file_roundtrip c f h
+    (fun a ha => aset_bin_roundtrip c D hf f h hD a ha (small a ha)) bytes hs
+  exact ⟨bytes, b, hs, hb, hfa⟩
+
+/-- **Size of the re-parsed file, unconditional.** -/
+theorem aset_file_size_unconditional (c : Codec) (D : Str → Prop) (hf : c.Faithful D)
+    (f : ASetFile) (h : WF f) (hD : Compose.AsetStrsIn D f)
+    (small : ∀ a, build f = .ok a → Ser.imageSize c a < 2 ^ 32) :
+    ∃ bytes b, serialize c f = .ok bytes ∧ BinArchive.parse c .little bytes = .ok b ∧
+      b.size = Spec.Aset.dataSize f.sets := by
+  obtain ⟨_, bytes, _, hs, _⟩ := aset_serialize_ok c D hf f h hD small
+  obtain ⟨b, hb, hsz⟩ := aset_file_size c f h
+    (fun a ha => aset_bin_roundtrip c D hf f h hD a ha (small a ha)) bytes hs
+  exact ⟨bytes, b, hs, hb, hsz⟩
+
+/-- **Idempotence, unconditional**: re-serialising the value re-read from the serialised file gives
+the same bytes. -/
+theorem aset_idempotent_unconditional (c : Codec) (D : Str → Prop) (hf : c.Faithful D)
+    (f : ASetFile) (h : WF f) (hD : Compose.AsetStrsIn D f)
+    (small : ∀ a, build f = .ok a → Ser.imageSize c a < 2 ^ 32) :
+    ∃ bytes b f', serialize c f = .ok bytes ∧ BinArchive.parse c .little bytes = .ok b ∧
+      fromArchive b = .ok f' ∧ serialize c f' = .ok bytes := by
+  obtain ⟨bytes, b, hs, hb, hfa⟩ := aset_file_roundtrip_unconditional c D hf f h hD small
+  exact ⟨bytes, b, f, hs, hb, hfa, hs⟩
+
+/-- Non-vacuity of the composed theorems: the identity codec is faithful on NUL-free strings and
+every string of `sample` (and the table label) is NUL-free. -/
+example : (⟨fun s => some s, id⟩ : Codec).Faithful (fun s => (0 : UInt8) ∉ s) ∧
+    Compose.AsetStrsIn (fun s => (0 : UInt8) ∉ s) sample := by
+  refine ⟨fun s hs => ⟨s, rfl, hs, rfl⟩, ⟨by decide, ?_, ?_, ?_⟩⟩
+  · intro s hs; cases hs; decide
+  · intro s hs
+    simp only [sample, List.mem_append, List.mem_replicate, List.mem_singleton] at hs
+    rcases hs with ⟨_, hs⟩ | hs
+    · cases hs
+    · cases hs; decide
+  · intro set hset s hs
+    simp only [sample, List.mem_cons, List.mem_nil_iff, or_false] at hset
+    rcases hset with rfl | rfl
+    · simp only [List.mem_cons, List.mem_append, List.mem_replicate, List.mem_nil_iff, or_false,
+        Option.some.injEq, reduceCtorEq, and_false, false_or, or_false] at hs
+      rcases hs with rfl | rfl <;> decide
+    · simp only [List.mem_replicate] at hs
+      cases hs.2
+
+/-- All hypotheses of the composed theorems together, the size limit included, hold of a concrete
+file (meta string, one empty set) over the identity codec; the image size is evaluated in the kernel. -/
+example :
+    let c : Codec := ⟨fun s => some s, id⟩
+    let D : Str → Prop := fun s => (0 : UInt8) ∉ s
+    let f : ASetFile := ⟨some (bs ['m']), List.replicate 257 none, [List.replicate 257 none]⟩
+    c.Faithful D ∧ WF f ∧ Compose.AsetStrsIn D f ∧
+      ∀ a, build f = .ok a → Ser.imageSize c a < 2 ^ 32 := by
+  refine ⟨fun s hs => ⟨s, rfl, hs, rfl⟩, by decide +kernel, ⟨by decide, ?_, ?_, ?_⟩, ?_⟩
+  · intro s hs; cases hs; decide
+  · intro s hs; simp only [List.mem_replicate] at hs; cases hs.2
+  · intro set hset s hs
+    simp only [List.mem_singleton] at hset
+    subst hset
+    simp only [List.mem_replicate] at hs; cases hs.2
+  · intro a ha
+    have h : (match build ⟨some (bs ['m']), List.replicate 257 none, [List.replicate 257 none]⟩ with
+        | .ok a => decide (Ser.imageSize ⟨fun s => some s, id⟩ a < 2 ^ 32)
+        | _ => false) = true := by decide +kernel
+    rw [ha] at h
+    simpa using h
 
 end Mila.Props.C17
